@@ -1,4 +1,6 @@
 from typing import Optional
+from collections import deque
+from copy import deepcopy
 import inspect
 
 LOCALS_NAME = "<locals>"
@@ -23,10 +25,15 @@ def copy_value(data):
     return a new value identical to default , but different in memory,
     to avoid multiple initialize to modify the same default data
     """
-    if multi(data):
-        return type(data)([copy_value(d) for d in data])
-    elif isinstance(data, dict):
+    t = type(data)
+    if t in (list, set, frozenset, tuple):
+        return t([copy_value(d) for d in data])
+    elif t is dict:
         return {k: copy_value(v) for k, v in data.items()}
+    elif isinstance(data, (list, set, frozenset, tuple, dict, deque, bytearray)):
+        # a subclass (a named tuple, a defaultdict, a data class instance) or another mutable container:
+        # it cannot be rebuilt from its items alone, it is copied as a whole and keeps its type
+        return deepcopy(data)
     return data
 
 
